@@ -107,6 +107,29 @@ pub fn check(sh: &Shared, c: &Case) -> Check {
         sh.class("outcome/punctuation/ok");
     }
     show("parse<Punctuation>", s, rp.map(|x| x.map(|_| ())))?;
+    // one input in 32 again in other calling contexts (a destructor during unwinding, a
+    // thread-local destructor at thread exit) and through a format value at a reused address
+    if crate::slots::key_of(s) % 32 == 0 {
+        let here = (guard(|| f.parse::<Narsese>(s).is_ok()).ok(), guard(|| f.parse::<Truth>(s).is_ok()).ok());
+        for ctx in crate::contexts::ALL {
+            sh.evals(2);
+            sh.class(&format!("context/{ctx:?}"));
+            let s2 = s.to_string();
+            let got = crate::contexts::run_in(ctx, move || {
+                let f = fmts::e(fi);
+                (guard(|| f.parse::<Narsese>(&s2).is_ok()).ok(), guard(|| f.parse::<Truth>(&s2).is_ok()).ok())
+            });
+            match got {
+                None => fail!("context:thread-died", "input {s:?}: the thread parsing inside {ctx:?} died"),
+                Some(g) if g != here => fail!("context:outcome-differs", "input {s:?}\n(parse<Narsese> ok, parse<Truth> ok) here = {here:?}, inside {ctx:?} = {g:?} (None = panic)"),
+                _ => {}
+            }
+        }
+        let slot = crate::slots::with_e(fi, 2 + (crate::slots::key_of(s) >> 5) % 2, |f| guard(|| f.parse::<Narsese>(s).is_ok()).ok());
+        if slot != here.0 {
+            fail!("format-address:outcome-differs", "input {s:?}\nparse<Narsese> ok through the static table = {:?}, through the same format at an address another format used before = {slot:?}", here.0);
+        }
+    }
     sh.unwatch();
     Ok(())
 }
